@@ -23,9 +23,12 @@ func NewFuture[T vivid.Message](liaison vivid.ActorLiaison, timeout time.Duratio
 	}
 
 	if timeout > 0 {
+		// 定时器回调运行在独立协程并会读取 timer 字段：在锁内赋值，使该写入先于回调中的读取
+		future.mu.Lock()
 		future.timer = time.AfterFunc(timeout, func() {
 			future.Close(vivid.ErrorFutureTimeout)
 		})
+		future.mu.Unlock()
 	}
 
 	return future
@@ -128,8 +131,11 @@ func (f *Future[T]) close(v any) {
 	}
 	verifhook.Yield("fut.close.done", f)
 	close(f.done)
-	if f.timer != nil {
-		f.timer.Stop()
+	f.mu.Lock()
+	timer := f.timer
+	f.mu.Unlock()
+	if timer != nil {
+		timer.Stop()
 	}
 	verifhook.Yield("fut.close.closer", f)
 	if f.closer != nil {
